@@ -6,6 +6,8 @@ import json, os, shutil, subprocess, sys, time
 
 ENV = dict(os.environ, GOFLAGS='-mod=mod', GOPROXY='off', GOTOOLCHAIN='auto')
 ENV.pop('GOSUMDB', None)
+ENV['VERIF_EVIDENCE_DIR'] = '/tmp/seed_evidence'   # a seeded run must not overwrite the evidence of the real tree
+os.makedirs('/tmp/seed_evidence', exist_ok=True)
 WT = '/tmp/wt_verify'
 
 
@@ -57,19 +59,29 @@ def main():
         print('VERIFY', 'ok' if ok_verify else 'FAILED', ran)
         if not ok_verify:
             print(out0[-600:], out1[-600:], out2[-1200:])
-    # run the check against the change in /repo
-    rc, out = sh('git -C /repo status --porcelain')
+    # run the check against the change in /repo (or, with --scratch, in a scratch worktree via VERIF_REPO, so that
+    # /repo stays untouched while other checks are running against it)
+    target = '/repo'
+    if '--scratch' in args:
+        target = '/tmp/wt_seed_%d' % os.getpid()
+        rc, out = sh('git -C /repo worktree add -q --detach %s HEAD' % target)
+        if rc:
+            print(out); return 2
+        ENV['VERIF_REPO'] = target
+    rc, out = sh('git -C %s status --porcelain' % target)
     if out.strip():
-        print('/repo is not clean, refusing'); return 2
-    rc, out = sh('git -C /repo apply %s' % patch)
+        print('%s is not clean, refusing' % target); return 2
+    rc, out = sh('git -C %s apply %s' % (target, patch))
     if rc:
-        print('patch does not apply to /repo:', out); return 2
+        print('patch does not apply to %s:' % target, out); return 2
     t = time.time()
     try:
         cmd = './check %s --no-validate' % prop + ((' --only ' + only) if only else '')
         crc, cout = sh(cmd, cwd='/verif', timeout=3000)
     finally:
-        sh('git -C /repo checkout -- .')
+        sh('git -C %s checkout -- .' % target)
+        if target != '/repo':
+            sh('git -C /repo worktree remove --force %s' % target)
     viol = [l for l in cout.split('\n') if l.startswith('VIOLATION')]
     caught = crc == 1 and bool(viol)
     print('CHECK rc=%d caught=%s in %.0fs' % (crc, caught, time.time() - t))
